@@ -7,6 +7,7 @@ on the same decoded inputs and stored records."""
 import base64
 import json
 import os
+import random
 import re
 import vf
 
@@ -22,13 +23,20 @@ META = {
             "function reachable from admission / governance execution is regenerated each run and its inclusion in the model's "
             "reviewed site list is a proof obligation; the real validators and the real executor are run under recover() on "
             "structured, life-cycle and raw payloads and outcome classes, enterprise post-states and every staking / vote / "
-            "vote-result record written are compared with the model by vm_compute.",
+            "vote-result record written are compared with the model by vm_compute.  Termination of admission: every function of "
+            "mempool/*.go that operates on a mutex is translated per (mutex, mode) with acquire/release as counter operations and "
+            "Theorem C14_pool_locks_released (counter analysis of VmGuard/Balance.v, closed by vm_compute each run) states that every "
+            "path out of it -- early returns included -- has released what it acquired; sequences of pool operations on ONE pool "
+            "(every rejection class, then put / get / block notification / list / remove) are run with the real functions under a "
+            "3 s watchdog per operation.",
     "note": "Hypotheses of the reachable-state theorems: encoding/json round trip of a one-element string list; DecodeAddress "
             "results are short; base58.Decode length consistency; records written < 2^32 bytes and amounts < 2^304 (total supply "
             "bound, C01); genesis BP ids are 39-byte peer ids.  Trusted: Coq kernel/vm_compute; JSON decoding (the model starts "
             "from the decoded CallInfo); string oracles; vprt.go (in-memory voting power rank), balances and DB errors are "
             "outside the model and exercised by the engine only; gen_panicsites has no type information (name-based "
-            "reachability, reviewed list in Sites.v); the engine replicates mempool.validateTx's governance dispatch.",
+            "reachability, reviewed list in Sites.v); the engine replicates mempool.validateTx's governance dispatch.  Lock obligation: "
+            "syntactic (go/parser), calls are skipped (a callee is checked as its own term; a panic of a callee while a non-deferred "
+            "lock is held is not an exit of the model), lock operations in non-deferred closures / goto / fallthrough are rejected.",
     "technique": "Coq invariant/totality proofs over a Panic-explicit model + generated panic-site inventory obligation + vm_compute correspondence (outcomes and written records) against the real validators/executor",
 }
 
@@ -621,6 +629,209 @@ def pool_differential(ctx, poolbin, cases, obs):
     return fails, diffs, len(pcs)
 
 
+# ---------------------------------------------------------------- engine 3: sequences on one pool, watchdog
+def _A(i):
+    return "@A%d" % i
+
+
+def _stx(snd=1, n=1, **kw):
+    d = {"acct": _A(snd), "key": snd, "nonce": n, "amt": "1", "rcpt": _A(2), "ty": 4}
+    d.update(kw)
+    return d
+
+
+def _b64(t):
+    return base64.b64encode(t.encode()).decode()
+
+
+# rejection class -> (transaction, expected text of the specific rejection when submitted = verifyTx then put)
+SEQ_REJECT = {
+    "badsig_addr": (_stx(badsig=True), "signature not matched"),
+    "nosig_addr": (_stx(nosig=True), "malformed signature"),
+    "name_unregistered": (_stx(acct="nosuchname12", key=0), "malformed public key"),
+    "name_foreign_key": (_stx(acct="abcdefghijkl", key=1), "signature not matched"),
+    "name_owner_changed_old_key": (_stx(acct="mnopqrstuvwx", key=0), "signature not matched"),
+    "name_short_unregistered": (_stx(acct="abc", key=0), "malformed public key"),
+    "name_empty": (_stx(acct="", key=0), "tx invalid format"),
+    "name_badsig": (_stx(acct="abcdefghijkl", key=0, badsig=True), "signature not matched"),
+    "name_nosig": (_stx(acct="abcdefghijkl", key=0, nosig=True), "malformed signature"),
+    "nonce_low": (_stx(n=0), "nonce is too low"),
+    "low_balance": (_stx(amt="3000000000000000000000000"), "not enough balance"),
+    "bad_payload": (_stx(ty=1, rcpt="aergo.system", p=_b64("{"), amt="0"), "tx invalid payload"),
+    "bad_chain": (_stx(badchain=True), "tx invalid chain id hash"),
+    "name_recipient_unregistered": (_stx(rcpt="nosuchname12"), "tx invalid recipient"),
+    "recipient_len20": (_stx(rcpt="x" * 20), "tx invalid recipient"),
+    "bad_type": (_stx(ty=99), "tx invalid type"),
+    "gov_unknown_recipient": (_stx(ty=1, rcpt="aergo.nothing", p=_b64('{"Name":"v1stake"}')), "tx invalid recipient"),
+    "huge_amount": (_stx(amt="1" + "0" * 27), "tx invalid amount"),
+    "stake_too_small": (_stx(ty=1, rcpt="aergo.system", p=_b64('{"Name":"v1stake"}'), amt="1"), "too small amount"),
+}
+SEQ_ACCEPT = {"addr": lambda n: _stx(1, n), "addr0": lambda n: _stx(0, n + 3), "name_ok": lambda n: _stx(acct="abcdefghijkl", key=0, n=n),
+              "name_moved_ok": lambda n: _stx(acct="mnopqrstuvwx", key=1, n=n)}
+
+
+def gen_sequences(ctx):
+    """(sequence, expectations): expectations[i] = None | ("OK", prefix) | ("ERR", substring)"""
+    rng = random.Random(ctx.seed * 7919 + 14)
+    seqs = []
+    def S(steps):
+        seqs.append(({"steps": [{"op": op, **({"tx": tx} if tx is not None else {})} for op, tx, _ in steps]}, [e for _, _, e in steps]))
+    ok = ("OK", "OK")
+    # every rejection class, then a valid put, a fetch, a block notification, the listing, a name-sender accept, ...
+    for cls, (tx, msg) in SEQ_REJECT.items():
+        S([("submit", tx, ("ERR", msg)), ("submit", _stx(1, 1), ok), ("get", None, ("OK", "OK 1")), ("block", None, ok),
+           ("list", None, ("OK", "OK 1")), ("submit", tx, ("ERR", msg)), ("submit", _stx(acct="abcdefghijkl", key=0, n=1), ok),
+           ("get", None, ("OK", "OK 2")), ("unconfirmed", None, ok), ("block", {"ref": 2}, ok), ("remove", {"ref": 2}, ok),
+           ("get", None, ("OK", "OK 1")), ("exist", {"ref": 7}, ("OK", "OK 1")), ("evict", None, ok)])
+        # the verifier alone (TxVerifier actor), then the pool
+        S([("verify", tx, None), ("verify", tx, None), ("put", _stx(2, 1), ok), ("block", None, ok), ("get", None, ("OK", "OK 1"))])
+    # rejections by the pool itself (under mp.Lock in put): same sender and nonce with another body, duplicates, orphans
+    S([("submit", _stx(1, 1), ok), ("submit", _stx(1, 1, amt="2"), ("ERR", "same nonce")), ("submit", {"ref": 1}, ("ERR", "already in mempool")),
+       ("submit", _stx(1, 3), ok), ("submit", _stx(1, 3, amt="2"), ("ERR", "same nonce")), ("get", None, ("OK", "OK 1")), ("submit", _stx(1, 2), ok),
+       ("get", None, ("OK", "OK 3")), ("block", {"ref": 1}, ok), ("submit", _stx(2, 1), ok), ("remove", {"ref": 4}, ok), ("remove", {"ref": 4}, ("ERR", "not found")),
+       ("get", None, None), ("evict", None, ok), ("list", None, None)])
+    # the accepting name-sender paths
+    S([("submit", _stx(acct="abcdefghijkl", key=0, n=1), ok), ("submit", _stx(acct="mnopqrstuvwx", key=1, n=1), ok),
+       ("submit", {"ref": 1}, ("ERR", "already in mempool")), ("get", None, ("OK", "OK 2")), ("block", {"ref": 1}, ok), ("list", None, ("OK", "OK 2"))])
+    # random interleavings
+    nrand = 30 if ctx.tier == "quick" else 1500
+    for _ in range(nrand):
+        steps, nonce = [], {"addr": 1, "addr0": 1, "name_ok": 1, "name_moved_ok": 1}
+        for _k in range(rng.randint(5, 16)):
+            r = rng.random()
+            if r < 0.45:
+                cls = rng.choice(sorted(SEQ_REJECT))
+                steps.append((rng.choice(["submit", "submit", "verify"]), SEQ_REJECT[cls][0], None))
+            elif r < 0.7:
+                who = rng.choice(sorted(SEQ_ACCEPT))
+                # name_ok and addr0 are the same account (the name belongs to account 0): separate nonce ranges
+                steps.append(("submit", SEQ_ACCEPT[who](nonce[who]), None))
+                nonce[who] += 1
+            else:
+                steps.append((rng.choice(["get", "block", "list", "unconfirmed", "evict", "get", "block"]), None, None))
+        steps += [("submit", _stx(2, 1), ok), ("get", None, None), ("block", None, ok)]
+        S(steps)
+    return seqs
+
+
+def pool_sequences(ctx, poolbin):
+    """engine 3: sequences of operations on one pool, each operation under a watchdog"""
+    seqs = gen_sequences(ctx)
+    fin = os.path.join(ctx.workdir, "c14seq.in")
+    fout = os.path.join(ctx.workdir, "c14seq.out")
+    with open(fin, "w") as f:
+        for s_, _ in seqs:
+            f.write(json.dumps(s_) + "\n")
+    rc, log = ctx.run_bin(poolbin, ["-test.run", "TestVerifC14MempoolSeqEngine"],
+                          env={"VERIF_IN": fin, "VERIF_OUT": fout, "VERIF_OP_TIMEOUT_MS": "3000", "VERIF_MAX_BLOCKED": "3"}, timeout=1200)
+    sobs = []
+    if os.path.exists(fout):
+        for l in open(fout):
+            try:
+                sobs.append(json.loads(l))
+            except ValueError:
+                break
+    fails, diffs, nops, nrun = [], [], 0, 0
+    if rc != 0:
+        # the process died (Go fatal error, e.g. "sync: Unlock of unlocked RWMutex"): the sequence being run is the failing input
+        m = re.search(r"^(fatal error: .*|panic: .*)$", log, re.M)
+        if not m or len(sobs) >= len(seqs):
+            raise RuntimeError("C14 mempool sequence engine failed:\n" + log[-3000:])
+        sq = seqs[len(sobs)][0]
+        fails.append(("C14:crash:mempool:seq", "a pool operation of this sequence crashed the process: " + m.group(1)[:160],
+                      {"sequence": sq["steps"], "log": log[log.find(m.group(1)):][:1500]}))
+        seqs = seqs[:len(sobs)]
+    elif len(sobs) != len(seqs):
+        raise RuntimeError("C14 mempool sequence engine: %d observations for %d sequences" % (len(sobs), len(seqs)))
+    how = ("fresh MemPool over a prepared state (accounts 0-2 funded, name abcdefghijkl owned by account 0, name mnopqrstuvwx moved to "
+           "account 1); each step runs the real pool function in a goroutine with a 3 s watchdog (engine harness/engines/admit, "
+           "TestVerifC14MempoolSeqEngine); submit = verifyTx then put")
+    def describe(step):
+        d = dict(step)
+        if "tx" in d and d["tx"].get("p"):
+            d["tx"] = dict(d["tx"], payload=base64.b64decode(d["tx"]["p"]).decode(errors="backslashreplace"))
+        return d
+    for (sq, exp), o in zip(seqs, sobs):
+        outs = o.get("out") or []
+        if outs and outs[0] == "NOTRUN":
+            continue
+        nrun += 1
+        for i, r in enumerate(outs):
+            if r in ("SKIPPED", "NOTRUN"):
+                break
+            nops += 1
+            st = sq["steps"][i]
+            rep = {"how": how, "sequence": [describe(x) for x in sq["steps"][:i + 1]], "outcomes": outs[:i + 1]}
+            if r == "TIMEOUT":
+                prev = next((j for j in range(i - 1, -1, -1) if outs[j].startswith("ERR")), None)
+                cause = ""
+                if prev is not None:
+                    cause = " after the rejection '%s' of step %d" % (outs[prev][:80], prev + 1)
+                fails.append(("C14:hang:mempool:%s" % st["op"],
+                              "admission did not terminate: pool operation %s (step %d) still blocked after 3 s%s" % (st["op"], i + 1, cause), rep))
+                break
+            if r.startswith("PANIC"):
+                fails.append(("C14:panic:mempool:seq:%s" % st["op"], "mempool %s panics: %s" % (st["op"], r[:160]), rep))
+                break
+            e = exp[i]
+            if e is not None:
+                good = (r.startswith(e[1]) if e[0] == "OK" else (r.startswith("ERR") and e[1] in r))
+                if not good:
+                    diffs.append(dict(rep, expected="%s %s" % e, got=r))
+                    break
+    return fails, diffs, nrun, nops
+
+
+def gen_locks(ctx):
+    """gen/gen_panicsites_locks -> coq/Gen/AdmitLocks.v (lock / unlock paths of package mempool)"""
+    src = os.path.join(ctx.verif, "gen", "gen_panicsites_locks")
+    binp = os.path.join(ctx.workdir, "gen_panicsites_locks")
+    env = ctx.goenv()
+    env["GO111MODULE"] = "off"
+    rc, out = vf.sh(["go", "build", "-o", binp, "."], cwd=src, env=env, timeout=600)
+    if rc != 0:
+        raise RuntimeError("gen_panicsites_locks build failed:\n" + out[-2000:])
+    outp = os.path.join(vf.COQ, "Gen", "AdmitLocks.v")
+    rc, out = vf.sh([binp, ctx.repo, outp], timeout=120)
+    if rc != 0:
+        raise RuntimeError("gen_panicsites_locks failed:\n" + out[-2000:])
+    txt = open(outp).read()
+    return len(re.findall(r'^  \("[^"]+@', txt, re.M)), txt
+
+
+def lock_paths(ctx):
+    """the lock analysis on the generated term: functions with an exit that leaves a mutex held (or
+    released too often), with one witness path each; unsupported constructs"""
+    txt = ["From Coq Require Import String List Bool ZArith.",
+           "From Verif Require Import VmGuard.Lang VmGuard.Balance Gen.AdmitLocks.",
+           "Import ListNotations.", "Open Scope Z_scope.",
+           "Definition RES_PATHS := Eval vm_compute in flat_map (fun x => map (fun v => (fst (fst x), fst v, a_d (snd v), a_p (snd v), a_w (snd v))) (snd x)) "
+           "(counter_offending (fun _ => false) [] lock_program).", "Print RES_PATHS.",
+           "Definition RES_UNSUP := Eval vm_compute in lock_unsupported.", "Print RES_UNSUP.",
+           "Definition RES_END := tt.", "Print RES_END."]
+    ctx.coq_make(["VmGuard/Balance.vo", "Gen/AdmitLocks.vo"])
+    rc, out = ctx.coq_eval("lockpaths", "\n".join(txt))
+    if rc != 0:
+        return None, out
+    flat = " ".join(out.split())
+    m1 = re.search(r"\bRES_PATHS = (.*?) \bRES_UNSUP = (.*?) \bRES_END = ", flat)
+    if not m1:
+        return None, "could not find the results in:\n" + out[-1500:]
+    r, u = (x.rsplit(" : ", 1)[0].strip() for x in m1.groups())
+    paths = []
+    for m in re.finditer(r'\("([^"]+)",\s*"([^"]+)",\s*(-?\d+),\s*(-?\d+),\s*(\[.*?\]|nil)\)(?=;|\s*\]|\s*$)', r):
+        fn, reason, d, p, w = m.groups()
+        steps = [{"at": a.replace('""', '"'), "taken": b == "true"} for a, b in re.findall(r'\("((?:[^"]|"")*)",\s*(true|false)\)', w)]
+        paths.append({"function@mutex.mode": fn, "reason": reason, "held_at_exit": int(d), "deferred_releases": int(p),
+                      "net_locks_left_held": int(d) + int(p), "path": steps})
+    if r not in ("[]", "nil") and not paths:
+        return None, "could not parse the printed lock paths:\n" + out[-1500:]
+    unsup = [x.replace('""', '"') for x in re.findall(r'"((?:[^"]|"")*)"', u)]
+    if u not in ("[]", "nil") and not unsup:
+        return None, "could not parse lock_unsupported:\n" + out[-1500:]
+    return {"paths": paths, "unsupported": unsup}, out
+
+
 def check_hypotheses(cases, obs):
     """The hypotheses of the reachable-state theorems, tested on the real functions' results of this run.
     Returns a list of (what, replay) for every observation contradicting one."""
@@ -699,6 +910,7 @@ def panic_key(c, o, stage):
 
 def run(ctx):
     gen_sites(ctx)
+    nlockterms, _ = gen_locks(ctx)
     pr = ctx.prove(extra_targets=["AdmitTotal/Eval.vo", "AdmitTotal/Examples.vo"])
     ctx.cov["trusted_base"] = [
         "Coq 8.16.1 kernel + vm_compute", "Go toolchain, encoding/json", "overlay build of package chain (VM stub never reached by governance txs)",
@@ -714,7 +926,8 @@ def run(ctx):
     if rc != 0:
         raise RuntimeError("admit engine build failed:\n" + log[-3000:])
 
-    rc, log, poolbin = ctx.go_test_binary("mempool", [os.path.join(vf.HARNESS, "engines/admit/zz_verif_c14_mempool_engine_test.go")],
+    rc, log, poolbin = ctx.go_test_binary("mempool", [os.path.join(vf.HARNESS, "engines/admit/zz_verif_c14_mempool_engine_test.go"),
+                                                      os.path.join(vf.HARNESS, "engines/admit/zz_verif_c14_mempool_seq_engine_test.go")],
                                           "admit_mempool.test")
     if rc != 0:
         raise RuntimeError("mempool engine build failed:\n" + log[-3000:])
@@ -722,6 +935,7 @@ def run(ctx):
     cases, ncorpus = gen_cases(ctx)
     hdr, obs = run_engine(ctx, binp, cases, "c14")
     pool_fail, pool_diff, npool = pool_differential(ctx, poolbin, cases, obs)
+    seq_fail, seq_diff, nseq, nseqops = pool_sequences(ctx, poolbin)
     # ---- direct predicate: no panic anywhere
     pred_fail = []
     for i, (c, o) in enumerate(zip(cases, obs)):
@@ -729,9 +943,32 @@ def run(ctx):
             if o[stage].startswith("PANIC"):
                 pred_fail.append((panic_key(c, o, stage), "%s panics: %s" % (stage, o[stage][:160]), i))
                 break
-    for key, what, rep in pool_fail:
+    for key, what, rep in pool_fail + seq_fail:
         pred_fail.append((key, what, rep))
     hyp_bad = check_hypotheses(cases, obs)
+    # ---- lock release on every path of the pool functions (translated source, checked in Properties/C14.v)
+    lk, lkout = lock_paths(ctx)
+    lock_fail = []
+    if lk is None:
+        lock_fail.append((None, "could not evaluate the lock-path analysis on the translated pool functions", {"log": lkout[-2000:]}))
+    else:
+        grp = {}
+        for pth in lk["paths"]:
+            grp.setdefault(pth["function@mutex.mode"], []).append(pth)
+        for fn, pl in grp.items():
+            pl.sort(key=lambda p: (0 if p["path"] and p["path"][-1]["at"] == "return" else 1, len(p["path"])))
+            pth = pl[0]
+            steps = "; ".join(st["at"] if st["at"] == "return" or st["at"].startswith("panic in") else
+                              "%s -> %s" % (st["at"], "taken" if st["taken"] else "not taken") for st in pth["path"]) or "(straight line to the end of the body)"
+            lock_fail.append(("C14:lockleak:%s" % fn,
+                              "pool function %s: an exit leaves the mutex %s (acquired %+d, deferred releases %+d): every later writer blocks and admission "
+                              "does not terminate; path: %s" % (fn.split("@")[0], "held %d time(s)" % pth["net_locks_left_held"] if pth["net_locks_left_held"] > 0
+                                                                 else "released %d time(s) too often" % -pth["net_locks_left_held"],
+                                                                 pth["held_at_exit"], pth["deferred_releases"], steps),
+                              {"path": pth, "all_failing_exits": pl[:6],
+                               "how": "lock / unlock paths of mempool/*.go translated by gen/gen_panicsites_locks, analysed by VmGuard/Balance.v (C14_pool_lock_paths_checked)"}))
+        for u in lk["unsupported"]:
+            lock_fail.append(("C14:lockpath:unsupported:%s" % u[:60], "lock operation in a construct the lock-path translation cannot express: " + u, {"site": u}))
     # ---- correspondence
     mism, out = eval_cases(ctx, cases, obs, "cases")
     corr_broken = None
@@ -746,6 +983,8 @@ def run(ctx):
     if hyp_bad and not corr_broken:
         corr_broken = ("a hypothesis of the reachable-state theorems is contradicted by the real code: " + hyp_bad[0][0],
                        [dict(h[1], what=h[0], tx=replay_of(cases, obs, h[1]["case"])["sequence"][-1]) for h in hyp_bad[:3]])
+    if seq_diff and not corr_broken:
+        corr_broken = ("a pool operation of a sequence on one pool did not end with the expected accept / specific rejection", seq_diff[:3])
     if pool_diff and not corr_broken:
         corr_broken = ("the real mempool.verifyTx / validateTx outcome differs from the modelled admission (engine 1) on the same state and transaction",
                        pool_diff[:3])
@@ -785,6 +1024,7 @@ def run(ctx):
     ctx.cov["rule"] = ("one case = one signed transaction run through Tx.Validate, the stateful validator and (governance) the real "
                        "executor on a block state prepared by earlier transactions of its group; distinct = distinct (recipient, decoded "
                        "command name, Validate class, stateful class, execution class) tuples")
+    ctx.cov["lock_path_terms"] = nlockterms
     ctx.cov["input_distribution"] = {
         "cases": len(cases), "corpus": ncorpus, "groups": len({c["g"] for c in cases}),
         "undecodable_payloads": sum(1 for o in obs if not o["decode_ok"]),
@@ -792,6 +1032,7 @@ def run(ctx):
         "executed_success": sum(1 for o in obs if o["exec"].startswith("OK SUCCESS")),
         "exec_classes": {k: v for k, v in sorted(classes.items(), key=lambda kv: -kv[1])[:25]},
         "panic_sites_in_source": site_count(), "real_mempool_admission_cases": npool,
+        "pool_sequences": nseq, "pool_sequence_operations_under_watchdog": nseqops, "rejection_classes_in_sequences": len(SEQ_REJECT),
         "oracle_hypothesis_checks": {"strings_json_roundtrip": sum(len(o.get("strs") or []) for o in obs),
                                      "records_size_bounds": 2 * len(obs), "contradictions": len(hyp_bad)},
     }
@@ -808,7 +1049,12 @@ def run(ctx):
         if len(seen) > 6:
             break
         ctx.finding(key, what, replay_of(cases, obs, i) if isinstance(i, int) else i)
-    if not pr["ok"] and not pred_fail:
+    for key, what, rep_ in lock_fail:
+        if key is None:
+            ctx.violation(what, rep_, no_input=True)
+        else:
+            ctx.finding(key, what, rep_)
+    if not pr["ok"] and not pred_fail and not lock_fail:
         ctx.violation("proof obligation no longer checks: %s" % pr["broken"],
                       {"theorem_or_file": pr["broken"], "unaccounted_panic_sites": unknown, "log": pr["log"][-3000:],
                        "directed_search": "no panicking input found in %d cases" % len(cases)}, no_input=True)
